@@ -16,6 +16,14 @@ def run(ctx):
             for alg in range(3):
                 for pat in ((0, 3) if be == "asm" else (3,)):
                     jobs.append((exe, [fam, alg, pat, 1 if (ctx.thorough and be == "asm") else 0], be, fam == 4))
+    # the masked family additionally under other share counts (its decrypt path differs per data-share count)
+    for be in ("asm", "c64", "c32"):
+        for tr in ([(2, 1, 2), (3, 3, 3), (4, 4, 4), (4, 1, 4), (3, 2, 3)] if not ctx.thorough else [t for t in build.ALL_TRIPLES if t != build.DEFAULT_TRIPLE]):
+            lib = build.build_lib(be, tr)
+            exe = build.build_prog("c02", ["harness/c02.c", "harness/sysrand.c", "ref/ref.c"], lib)
+            ctx.configs.append(lib["desc"])
+            for alg in range(3):
+                jobs.append((exe, [2, alg, 3, 0], "%s-k%dd%dm%d" % ((be,) + tr), False))
     jobs.sort(key=lambda j: not j[3])
     common.parallel(lambda j: common.run_harness(ctx, j[0], j[1], label=j[2]), jobs)
     ctx.assumptions += [
